@@ -493,6 +493,12 @@ func inlineBlockBoxLayout(context *layoutContext, box_ Box, positionX pr.Float, 
 ) Box {
 	resolvePercentagesBox(box_, containingBlock, 0)
 	box := box_.Box()
+	if box.IsTableWrapper {
+		// resolvePercentages has just reset the width found by tableWrapperWidth to 'auto':
+		// the wrapper of an inline-table is as wide as the border box of its table
+		// (shrink-to-fit would give the width of the table's content box)
+		box.Width = box.GetWrappedTable().Box().BorderWidth()
+	}
 	// https://www.w3.org/TR/CSS21/visudet.html#inlineblock-width
 	if box.MarginLeft == pr.AutoF {
 		box.MarginLeft = pr.Float(0)
